@@ -203,9 +203,12 @@ def run(ctx):
         return {"template": res[i]["template"], "csvpath": res[i].get("text"), "chunks": j[0], "rows": j[1], "impl": {"exception": res[i]["exc"], "printed": res[i].get("printed")}}
     spec_bad = sorted(bad["c16_spec"])
     main_bad = [i for i in spec_bad if i < nj]
-    touch_bad = [i for i in spec_bad if i >= nj]
+    # D9b is what the model of the scanner itself does on touching references (theorem C16_touching_refuted): a touching template whose
+    # printed text is NOT what that model yields is some other failure, reported with the rest
+    touch_bad = [i for i in spec_bad if i >= nj and i not in bad["c16_agree false"]]
+    touch_other = [i for i in spec_bad if i >= nj and i in bad["c16_agree false"]]
     d9 = [i for i in main_bad if i in bad["c16_agree false"] and i not in bad["c16_agree true"]]
-    other = [i for i in main_bad if i not in d9]
+    other = [i for i in main_bad if i not in d9] + touch_other
     if d9:
         if known_open(ctx.pid, SIG_D9):
             ctx.known(f"{SIG_D9}: {case(d9[0])['template']!r} ({len(d9)} templates)")
